@@ -642,7 +642,7 @@ def _index_common(w, st, fr, path, targs, args, dty, mut):
             if c.val == 0:
                 return False
             return True
-        st.sites.append({"kind": "slice:" + kind, "fn": fr.fn.path, "loc": "?", "cond": c, "expected": 1,
+        st.sites.append({"kind": "slice:" + kind, "fn": fr.fn.path, "loc": "?", "cond": c, "expected": 1, "nfacts_before": len(st.facts),
                          "stack": [f.fn.path for f in st.frames], "len": ln})
         w.assume(st, c, 1)
         return True
@@ -706,7 +706,7 @@ def _copy_from_slice(w, st, fr, path, targs, args, dty):
     if c.is_const() and c.val == 0:
         return Diverge("copy_from_slice length mismatch")
     if not c.is_const():
-        st.sites.append({"kind": "slice:copy-length", "fn": fr.fn.path, "loc": "?", "cond": c, "expected": 1,
+        st.sites.append({"kind": "slice:copy-length", "fn": fr.fn.path, "loc": "?", "cond": c, "expected": 1, "nfacts_before": len(st.facts),
                          "stack": [f.fn.path for f in st.frames]})
         w.assume(st, c, 1)
     from .walk import Effect
